@@ -282,7 +282,7 @@ def wl_builtin(ctx, rng, i):
             # a key/value pair that also occurs at top level, nested inside a custom dictionary and a list of dictionaries
             dup = {k: o[k] for k in list(o)[:6] if isinstance(o[k], (str, int, bool)) and k not in ("x_custom_prop",)}
             o["x_nested_twin"] = {"inner": dup, "items": [dup, {"zz": 1}]} if dup else {"a": 1}
-    if validator.validate({k: v for k, v in o.items() if not k.startswith("x_")}, ver):
+    if [x for x in validator.validate({k: v for k, v in o.items() if not k.startswith("x_")}, ver) if x[0] != "integer-type-range"]:
         ctx.skip("generator error")
         return
     route = "parse" if rnd % 2 == 0 else "constructor"
@@ -363,7 +363,7 @@ def wl_containers(ctx, rng, i):
     if ext:
         cont["0"]["extensions"] = {ext: g.fill(g.m.extensions[ext], ext, "random", 1, cont)}
     od["objects"] = cont
-    if validator.validate(od, "2.0"):
+    if [x for x in validator.validate(od, "2.0") if x[0] != "integer-type-range"]:
         ctx.skip("generator error")
         return
     obj = build(ctx, "2.0", od, "parse" if i % 2 == 0 else "constructor", rng)
